@@ -445,6 +445,8 @@ class Scan:
     def _object_or_none(self, g: FuncInfo, e: ast.expr) -> bool:
         """Is the value of `e` either None or an object that is always truthy (so that `e is not None` == truthiness)?"""
         fx = self.facts(g)
+        if isinstance(e, ast.NamedExpr):
+            return self._object_or_none(g, e.value)
         if isinstance(e, ast.Name):
             bs = fx.bind.get(e.id, [])
             if e.id not in fx.params and len(bs) == 1 and bs[0][0] == "val":
@@ -546,7 +548,68 @@ class Scan:
                 for t in self.totals(w, y, Rw, depth + 1):
                     outs.append(f_and([loc_y, t]))
             return outs or [local]
-        return [local]
+        inv = self.worklist_invariant(g, R)
+        return [f_and([local, inv])] if inv != TRUE else [local]
+
+    def worklist_invariant(self, g: FuncInfo, R: frozenset) -> Formula:
+        """What is known about a path taken out of a work list: the disjunction of the guards under which paths are put into it
+        (initial content, append, extend with a filtering comprehension), projected on the canonical atoms about the path itself."""
+        fx = self.facts(g)
+        box = None
+        for n in R:
+            for b in fx.bind.get(n, []):
+                if b[0] == "val" and isinstance(b[1], ast.Call) and isinstance(b[1].func, ast.Attribute) and b[1].func.attr in POPPERS:
+                    box = norm(b[1].func.value)
+        if box is None:
+            return TRUE
+        guards: list[Formula] = []
+
+        def element(e: ast.expr, at: ast.AST, extra: list | None = None, Re: frozenset | None = None) -> None:
+            if Re is None:
+                an = fx.alias_name(e)
+                Re = fx.cls_of(an) if an is not None else None
+            if Re is None:
+                guards.append(TRUE)
+                return
+            f = self.guard(g, at, Re)
+            for c in extra or []:
+                f = f_and([f, self.F(g, c, Re)])
+            guards.append(project(f))
+
+        def pushed(v: ast.expr, at: ast.AST) -> None:
+            if isinstance(v, ast.Call) and isinstance(v.func, ast.Name) and v.func.id in ("list", "deque", "tuple") and len(v.args) == 1:
+                v = v.args[0]
+            if isinstance(v, (ast.List, ast.Tuple)):
+                for el in v.elts:
+                    element(el, at)
+            elif isinstance(v, (ast.GeneratorExp, ast.ListComp)) and len(v.generators) == 1 and isinstance(v.generators[0].target, ast.Name):
+                gen = v.generators[0]
+                if fx.alias_name(v.elt) == gen.target.id:
+                    element(v.elt, at, list(gen.ifs), frozenset({gen.target.id}))
+                else:
+                    guards.append(TRUE)
+            elif isinstance(v, ast.Call) and isinstance(v.func, ast.Name) and v.func.id == "filter" and len(v.args) == 2:
+                guards.append(TRUE)
+            else:
+                guards.append(TRUE)
+
+        for n in own_nodes(g.node):
+            if isinstance(n, (ast.Assign, ast.AnnAssign)) and n.value is not None:
+                tg = n.targets if isinstance(n, ast.Assign) else [n.target]
+                if any(norm(t) == box for t in tg):
+                    pushed(n.value, n)
+            elif isinstance(n, ast.AugAssign) and norm(n.target) == box:
+                pushed(n.value, n)
+            elif isinstance(n, ast.Call) and isinstance(n.func, ast.Attribute) and norm(n.func.value) == box and n.args:
+                if n.func.attr in ("append", "appendleft", "add"):
+                    element(n.args[0], n)
+                elif n.func.attr in ("extend", "extendleft", "update"):
+                    pushed(n.args[0], n)
+                elif n.func.attr == "insert" and len(n.args) == 2:
+                    element(n.args[1], n)
+        if not guards:
+            return TRUE
+        return f_or(guards)
 
     def arg_class(self, h: FuncInfo, call: ast.Call, g: FuncInfo, R: frozenset) -> frozenset | None:
         """Alias class inside the caller h of the argument bound to a parameter of g that lies in R."""
@@ -630,6 +693,29 @@ class Scan:
                 elif isinstance(n, ast.Assign) and len(n.targets) == 1 and isinstance(n.targets[0], ast.Subscript) and norm(n.targets[0].value) in mine:
                     out.append(Event(g, n, "register", ast.Tuple(elts=[n.targets[0].slice, n.value], ctx=ast.Load()), f"`{norm(n.value, 50)}` stored in the result collection `{norm(n.targets[0].value)}`"))
         return out
+
+
+_CANON = [EXCL, PY, ISDIR, ISFILE]
+
+
+def project(f: Formula) -> Formula:
+    """Strongest formula over the canonical path atoms implied by f (the other atoms are existentially quantified)."""
+    import itertools
+
+    from core.guards import atoms_of, evaluate
+
+    names = [a[1] for a in _CANON]
+    others = sorted(atoms_of(f) - set(names))
+    if len(others) > 10:
+        return TRUE
+    rows = []
+    for vals in itertools.product([False, True], repeat=len(names)):
+        env = dict(zip(names, vals))
+        if any(evaluate(f, {**env, **dict(zip(others, ov))}) for ov in itertools.product([False, True], repeat=len(others))):
+            rows.append(f_and([atom(n) if v else f_not(atom(n)) for n, v in env.items()]))
+    if len(rows) == 2 ** len(names):
+        return TRUE
+    return f_or(rows)
 
 
 def run(repo: Repo, res: Result, rule: str, anchors: Anchors | None = None) -> int:
